@@ -251,3 +251,48 @@ Example real_model_panic_releases_waiter :
   map (fun th => map (fun r => (rval r, rerr r, rfresh r)) (tres th)) (threads s)
   = [[(vnil, epanic, true)]; [(vnil, 0%Z, false)]].
 Proof. vm_compute. split; reflexivity. Qed.
+
+(* (g) A follower that does not accept a shared context error (seeded change C07-4, cache node
+   doTake: "the flight ran with the leader's context; its cancellation says nothing about mine"):
+   when the shared call failed with context.Canceled / DeadlineExceeded (error codes 30 / 31) the
+   waiter runs its own function - OUTSIDE the flight, nothing registered under the key.  Every
+   follower of the failed flight does so at once. *)
+Definition ectx (e : Z) : bool := Z.eqb e 30 || Z.eqb e 31.
+
+Definition follower_retries_step (s : state) (t : nat) : option state :=
+  match nth_error (threads s) t with
+  | Some th =>
+    match cur_op th, tpc th with
+    | Some o, PWait c =>
+      match ogrp o, cval (heap s c) with
+      | GSF, Some (v, e) =>
+        if cdone (heap s c) && ectx e then
+          (* load() again with my own context: my function starts, no call object of its own *)
+          Some (mkState (S (now s)) (calls s) (heap s) (nextc s) (resources s) (ncreated s)
+                  (upd_nth (threads s) t
+                     (mkThread (PInFn c) (tscript th) (topi th) (tinv th) (tjoin th) (S (truns th)) (tres th))))
+        else step s t
+      | _, _ => step s t
+      end
+    | _, _ => step s t
+    end
+  | None => None
+  end.
+
+(* A leads and its function fails with the context error while B and C wait in its flight: both
+   followers then run their functions for key 1 at the same time *)
+Theorem follower_retry_on_context_error_overlap_refuted :
+  exists scripts sched, 2 <= running GSF 1 (run follower_retries_step (init scripts) sched).
+Proof.
+  exists [[mkOp GSF 1 101 30]; [mkOp GSF 1 201 0]; [mkOp GSF 1 301 0]],
+         [0;0;0; 1;1; 2;2; 0;0;0; 1; 2].
+  vm_compute. apply le_n.
+Qed.
+
+(* the real model on the same schedule: both followers return the leader's error, nothing runs *)
+Example real_model_followers_share_context_error :
+  let s := exec [[mkOp GSF 1 101 30]; [mkOp GSF 1 201 0]; [mkOp GSF 1 301 0]] [0;0;0; 1;1; 2;2; 0;0;0; 1; 2] in
+  running GSF 1 s = 0 /\
+  map (fun th => map (fun r => (rval r, rerr r, rfresh r, rruns r)) (tres th)) (threads s)
+  = [[(101%Z, 30%Z, true, 1)]; [(101%Z, 30%Z, false, 0)]; [(101%Z, 30%Z, false, 0)]].
+Proof. vm_compute. split; reflexivity. Qed.
